@@ -5369,6 +5369,8 @@ class PyCdlib:
             # Validate the names of the boot catalog before anything is
             # modified, so that a refused call leaves the ISO untouched.
             self._check_new_iso_path(bootcatfile)
+            if self.rock_ridge:
+                self._check_rr_name('boot.cat' if rr_bootcatname is None else rr_bootcatname)
             if joliet_bootcatfile:
                 self._check_new_joliet_path(joliet_bootcatfile)
             if udf_bootcatfile:
